@@ -211,6 +211,17 @@ def repo_state():
 
 
 # ---------------------------------------------------------------- running case files
+def _big_stack():
+    """the extracted model recurses over byte lists (not tail-recursive): megabyte payloads need a deep stack"""
+    import resource
+    try:
+        soft, hard = resource.getrlimit(resource.RLIMIT_STACK)
+        want = 4 << 30
+        resource.setrlimit(resource.RLIMIT_STACK, (want if hard == resource.RLIM_INFINITY else min(want, hard), hard))
+    except (ValueError, OSError):
+        pass
+
+
 def run_lines(exe, cases, workdir, tag, timeout=600, shards=None, env=None):
     """Run `exe <casefile>` on the cases (sharded over the cores); returns the output lines."""
     os.makedirs(workdir, exist_ok=True)
@@ -226,7 +237,8 @@ def run_lines(exe, cases, workdir, tag, timeout=600, shards=None, env=None):
         fn = os.path.join(workdir, "%s.%d.txt" % (tag, i))
         with open(fn, "w") as f:
             f.write("\n".join(chunk) + "\n")
-        p = subprocess.run([exe, fn], stdout=subprocess.PIPE, stderr=subprocess.PIPE, timeout=timeout, env=env)
+        p = subprocess.run([exe, fn], stdout=subprocess.PIPE, stderr=subprocess.PIPE, timeout=timeout, env=env,
+                           preexec_fn=_big_stack)
         out = p.stdout.decode("latin-1").split("\n")
         if out and out[-1] == "":
             out.pop()
